@@ -3,7 +3,9 @@
 usage: import_seeded.py ID [m1 ...]   — only imports mutations whose confirm.log shows pass/fail/pass."""
 import json, os, re, shutil, subprocess, sys
 ID = sys.argv[1]
-out = f'/tmp/wt/{ID}-out'
+SUF = os.environ.get('SUF', '')
+PREFIX = os.environ.get('NAME_PREFIX', 'm')
+out = f'/tmp/wt/{ID}{SUF}-out'
 ms = sys.argv[2:] or sorted(d for d in os.listdir(out) if re.fullmatch(r'm\d+', d))
 for m in ms:
     src = f'{out}/{m}'
@@ -12,7 +14,7 @@ for m in ms:
     ok = res.get('SUITE_WITH_MUTATION') == 'pass' and res.get('DEMO_WITH_MUTATION') == 'fail' and res.get('DEMO_WITHOUT_MUTATION') == 'pass'
     if not ok:
         print(f'{ID}/{m}: NOT confirmed ({res}); skipped'); continue
-    dst = f'/verif/seeded/{ID}-{m}'
+    dst = f'/verif/seeded/{ID}-{PREFIX}{m[1:]}'
     os.makedirs(dst, exist_ok=True)
     for f in os.listdir(src):
         if f in ('suite.log', 'confirm.log') or f.endswith('.log') or os.path.isdir(f'{src}/{f}'):
